@@ -172,6 +172,15 @@ func ReuseWAL(cfg *config.Config, dir string, nextSeq uint64) (*WAL, error) {
 	// Try the most recent one (last in sorted order)
 	latestWAL := files[len(files)-1]
 
+	// Only append to a file that ends on a record boundary: records written
+	// after a torn or damaged record could not be read back
+	if !endsOnRecordBoundary(latestWAL) {
+		if !DisableRecoveryLogs {
+			fmt.Printf("Latest WAL file has a damaged tail, starting a new one\n")
+		}
+		return nil, nil
+	}
+
 	// Try to open for append
 	file, err := os.OpenFile(latestWAL, os.O_RDWR|os.O_APPEND, 0644)
 	if err != nil {
@@ -221,6 +230,22 @@ func ReuseWAL(cfg *config.Config, dir string, nextSeq uint64) (*WAL, error) {
 	}
 
 	return wal, nil
+}
+
+// endsOnRecordBoundary reports whether the file consists of complete,
+// checksummed records only
+func endsOnRecordBoundary(path string) bool {
+	reader, err := OpenReader(path)
+	if err != nil {
+		return false
+	}
+	defer reader.Close()
+
+	for {
+		if _, err := reader.readRecord(); err != nil {
+			return err == io.EOF
+		}
+	}
 }
 
 // Append adds an entry to the WAL
